@@ -122,6 +122,48 @@ fn caller(spec: ReaderSpec, dir: String, shared: Shared, problems: Arc<Mutex<Vec
 }
 
 pub fn explore(spec: &ReaderSpec, vios: &mut Vec<Violation>, stats: &mut SchedStats, deadline: Instant) -> Result<(), Machinery> {
+    explore_with(spec, vios, stats, deadline, Dfs::new(0, FaultPolicy::None))
+}
+
+fn schedule_from_json(r: &serde_json::Value) -> Vec<(usize, String)> {
+    r["extra"]["schedule"]
+        .as_array()
+        .or_else(|| r["schedule"].as_array())
+        .map(|a| a.iter().filter_map(|x| x.as_str()).filter_map(|s| s.split_once(':').map(|(t, l)| (t.parse().unwrap_or(0), l.to_string()))).collect())
+        .unwrap_or_default()
+}
+
+/// Re-executes one recorded case.
+pub fn replay(r: &serde_json::Value) -> i32 {
+    let spec = ReaderSpec {
+        prop: "C07".to_string(),
+        hist: r["history"].as_array().map(|a| a.iter().map(crate::schedx::sop_from_json).collect()).unwrap_or_default(),
+        cfg: crate::seqx::cfg_from_json(&r["cfg"]),
+        max_executions: 1,
+    };
+    let mut vios = vec![];
+    let mut stats = SchedStats::default();
+    let dfs = Dfs::replaying(schedule_from_json(r), 0, FaultPolicy::None);
+    match explore_with(&spec, &mut vios, &mut stats, Instant::now() + std::time::Duration::from_secs(120), dfs) {
+        Err(Machinery(m)) => {
+            println!("REPLAY property=C07 could not be replayed on this tree: {}", m);
+            2
+        }
+        Ok(()) => {
+            if vios.is_empty() {
+                println!("REPLAY property=C07 held for this case ({} steps)", stats.steps);
+                0
+            } else {
+                for v in vios.iter().take(5) {
+                    println!("REPLAY property=C07 VIOLATION key={} what={}", v.key, v.what);
+                }
+                1
+            }
+        }
+    }
+}
+
+fn explore_with(spec: &ReaderSpec, vios: &mut Vec<Violation>, stats: &mut SchedStats, deadline: Instant, mut dfs: Dfs) -> Result<(), Machinery> {
     let mut model = RefLog::new();
     for op in &spec.hist {
         if let SOp::W(w) = op {
@@ -129,7 +171,6 @@ pub fn explore(spec: &ReaderSpec, vios: &mut Vec<Violation>, stats: &mut SchedSt
         }
     }
     let want = model.all();
-    let mut dfs = Dfs::new(0, FaultPolicy::None);
     stats.histories += 1;
     loop {
         dfs.begin_execution();
